@@ -42,6 +42,23 @@ def auth_methods():
             for al in re.findall(r'"([^"]+)"', ma.group(1)):
                 if al not in methods:
                     methods.append(al)
+    # names registered on the module by hand in the server code (`module.register_alias("new", "existing")`, register_method ..):
+    # each is a method name of its own as far as the middleware is concerned
+    sdir = os.path.join(REPO, "src/server")
+    for fn_ in sorted(os.listdir(sdir)):
+        if not fn_.endswith(".rs"):
+            continue
+        st = open(os.path.join(sdir, fn_)).read()
+        k = st.find("#[cfg(test)]")
+        if k >= 0:
+            st = st[:k]
+        st = re.sub(r"//[^\n]*", "", st)
+        for mm in re.finditer(r"\.\s*register_(alias|method|async_method|blocking_method|subscription)\s*\(\s*([^,)]*)", st):
+            lit = re.match(r'^"([^"]+)"$', mm.group(2).strip())
+            if not lit:
+                raise GenError("%s registers an RPC name that is not a string literal (%s)" % (fn_, mm.group(2).strip()[:40]))
+            if lit.group(1) not in methods:
+                methods.append(lit.group(1))
     # an attribute of the rpc macro that this reader does not know could register names it does not see: undecided, not a pass
     for attr in re.findall(r'#\[method\((.*?)\)\]', api, re.S):
         for key in re.findall(r'(\w+)\s*=', re.sub(r'"[^"]*"', '""', attr)):
